@@ -117,7 +117,19 @@ def set_store(
         from .codecs.databricks import DBFSStore, CommitType, DBFSURI
 
         commit_type = str(commit_type or CommitType.FULL.name).upper()
-        commit_type_ = CommitType[commit_type]
+        # The documented names ('none', 'links_only', 'full'), the names and the values of the enumeration.
+        commit_types = {
+            "NONE": CommitType.NO_COMMIT,
+            "LINKS_ONLY": CommitType.LINK_ONLY,
+        }
+        for ct in CommitType:
+            commit_types[ct.name] = ct
+            commit_types[ct.value.upper()] = ct
+        if commit_type not in commit_types:
+            raise DDSException(
+                f"Unknown commit type {commit_type}. Accepted values are 'none', 'links_only' and 'full'"
+            )
+        commit_type_ = commit_types[commit_type]
 
         _store_var = DBFSStore(
             DBFSURI.parse(internal_dir), DBFSURI.parse(data_dir), dbutils, commit_type_
